@@ -15,7 +15,7 @@ RULE = ("bounded-exhaustive: every multiset of 1..5 (thorough 6) items over 0..4
         "differs from the optimum of that objective; distinct on (algorithm, config, sorted values, numbins); every 10th (thorough: 4th) instance is of class manysmall: "
         "11-13 items with values <= 15, where O1 stays cheap, solved by cg (9 configurations), snp, rnp and ckk (<= 3 bins); 30% of each shard: certificate pairs "
         "(snp vs complete greedy on 9-12 items, 4-5 bins, values <= 1000; a strictly better validated partition refutes the other); 7 of 8 main-loop slots: complete-greedy focus "
-        "(cheap instances of 5-8 items, every third one of 9-11 items with 2-4 bins; 3 objectives x default switches + a random mask, plus a heuristic-3-on run under min-max) and a ckk/snp focus "
+        "(cheap instances of 5-8 items, every third one of 9-11 items with 2-4 bins, every third one a few big plus a few tiny items with 2-3 bins; 3 objectives x default switches + a random mask, plus a heuristic-3-on run under min-max) and a ckk/snp focus "
         "(3-4 bins, 6-9 items); a quarter of the exact runs ask for sums only (the returned sums must be reachable and optimal), plus a sums-only focus on snp/ckk with 10-12 small-valued items and 3-4 bins")
 ASSUMPTIONS = ["O1 enumerates all sorted sum-vectors (n <= 10; n <= 13 for the small-valued and 2-4-bin focus classes)", "ilp disagreements are re-solved with CBC preprocessing off; agreement then = inconclusive(solver)",
                "rnp: numbins <= 5 (numbins >= 6 is KF-rnp-k6, no value returned)"]
@@ -272,6 +272,10 @@ def run_shard(spec, rng, ctx):
                 # complete Karmarkar-Karp / snp focus on cheap sizes (2-3 bins, 6-9 mid-sized values): instance volume for rare coincidences in their pruning
                 k = rng.choice([2, 2, 3, 4, 4])
                 vals = [rng.randint(1 if rng.random() < 0.9 else 0, rng.choice([30, 40, 100, 254])) for _ in range(rng.randint(6, 9) if k < 4 else rng.randint(7, 8))]
+                if rng.random() < 0.3:
+                    # a few big items and a few tiny ones (see the complete-greedy focus)
+                    vals = [rng.randint(20, 100) for _ in range(rng.randint(k, 2 * k + 1 if k < 4 else k + 2))] + [rng.randint(1, 8) for _ in range(rng.randint(2, 4 if k < 4 else 2))]
+                    rng.shuffle(vals)
                 vectors = O.sum_vectors(vals, k)
                 optcache = {}
                 base = {"kind": "partition", "k": k, "values": vals, "cls": "ckk_focus", "pres": rng.choice(["list", "list", "dict_str"]), "pres_seed": rng.randrange(1 << 30)}
@@ -305,6 +309,15 @@ def run_shard(spec, rng, ctx):
                     vals = [rng.randint(0 if rng.random() < 0.1 else 1, rng.choice([20, 30, 100])) for _ in range(rng.randint(9, 11 if k <= 3 else 10))]
                     run_cg_focus(k, vals, rng, ctx, large=True)
                     ctx.counters["cg_focus_large_instances"] += 1
+                elif i % 3 == 2:
+                    # "a few big items and a few tiny ones" (2-3 bins): the tiny items cannot make up for a big item placed wrongly, so a dominance or bound rule that is
+                    # almost valid ("this bin is not the bottleneck", "the small ones will even it out") fails here and nowhere in uniformly drawn inputs
+                    k = rng.choice([2, 2, 3])
+                    hi = rng.choice([60, 100])
+                    vals = [rng.randint(hi // 5, hi) for _ in range(rng.randint(k, 2 * k + 1))] + [rng.randint(1, max(2, hi // 12)) for _ in range(rng.randint(2, 5))]
+                    rng.shuffle(vals)
+                    run_cg_focus(k, vals, rng, ctx)
+                    ctx.counters["cg_focus_bigtiny_instances"] += 1
                 else:
                     k = rng.choice([3, 3, 4, 5])
                     vals = [rng.randint(0 if rng.random() < 0.1 else 1, rng.choice([20, 30, 100])) for _ in range(rng.randint(5, 8 if k <= 4 else 7))]
